@@ -957,9 +957,14 @@ impl DebugSession {
                     });
                 }
                 (MachineRunningState::Running, MachineRunningState::Running) => (),
-                (MachineRunningState::Launching, _) | (_, MachineRunningState::Launching) => {
-                    panic!("Should never receive any machine events during launch.");
+                // A client may ask for 'pause' (or a step) before it sends 'configurationDone': the machine is stopped
+                // before it has run at all
+                (MachineRunningState::Launching, MachineRunningState::Stopped(_)) => {
+                    let mut args = StoppedEventArguments::new(StoppedReason::Pause);
+                    args.thread_id = Some(1);
+                    self.enqueue_event::<StoppedEvent>(args);
                 }
+                (MachineRunningState::Launching, _) | (_, MachineRunningState::Launching) => (),
             },
             MachineEvent::Message { output, location } => {
                 self.enqueue_event::<OutputEvent>(OutputEventArguments {
